@@ -6,10 +6,12 @@ Oracle: differential triple plus reference model. For a random tree:
   stdin), and all equal the reference merge of the generator's messages in that
 order (ties across files expose the order). An explicitly named file with a
 non-log suffix must be attempted.
-"sorted path order" is taken as the order of a sorted depth-first walk (names
-sorted inside each directory, a directory's files at the directory's position);
-when that differs from plain string order of the full paths the tree carries no
-cross-file ties, so either reading passes.
+"sorted path order" is taken as the order of paths compared component by
+component (what `std::path::Path`'s ordering and a sorted depth-first walk give:
+names sorted inside each directory, a directory's files at the directory's
+position). It differs from the string order of the full paths where a directory
+name is continued by a sibling's name with a character below '/' (`app/` beside
+`app.log`, `app-error.log`); such shapes are generated on purpose, with ties.
 """
 import os
 
@@ -18,9 +20,11 @@ from vlib import cases, core, gen
 LEVEL = "exploration"
 
 NAMES = ["a.log", "b.log", "B.log", "app.log.1", "messages", "syslog", "x y.log", "ñ.log", "日本.log", ".hidden.log", "z.txt", "k.log.gz", "m.log.xz",
-         "arch.tar", "noext", "10.log", "2.log", "-dash.log", "image.png", "prog.exe", "lib.so", "page.html", "data.zip"]
+         "arch.tar", "noext", "10.log", "2.log", "-dash.log", "image.png", "prog.exe", "lib.so", "page.html", "data.zip",
+         # names that continue a sibling directory's name with a character that sorts before '/'
+         "d1.log", "d1-old.log", "d1 2.log", "0.log", "Zdir,1.log", "app.log", "app-error.log"]
 NONLOG = (".png", ".exe", ".so", ".html", ".zip")
-DIRS = ["d1", "sub dir", "Zdir", "a.d", "日本", "logs.old", "0"]
+DIRS = ["d1", "sub dir", "Zdir", "a.d", "日本", "logs.old", "0", "app", "d1"]
 
 
 def build_tree(ctx, rng, cid):
@@ -132,7 +136,9 @@ def run(ctx):
         root, top, files, ties = build_tree(ctx, rng, cid)
         order_dfs = walk_sorted(top)
         order_str = sorted(order_dfs, key=lambda s: s.encode("utf-8", "surrogateescape"))
-        if order_dfs != order_str and ties:
+        if order_dfs != order_str:
+            ctx.count("trees where component-wise path order and string order of the full paths differ")
+        if False:
             ctx.count("trees rebuilt without ties because walk order and string order differ")
             # rebuild without ties: same shape is not needed, any tree will do
             for attempt in range(5):
